@@ -1,7 +1,8 @@
 From PW Require Import Persist.Forwarder.
 
 Definition good_fflags (fl : fflags) : Prop :=
-  exc_marker fl = true /\ res_put_first fl = true /\ end_put_first fl = true /\ final_breaks fl = true /\ closes_at_end fl = true.
+  exc_marker fl = true /\ res_put_first fl = true /\ end_put_first fl = true /\ final_breaks fl = true /\ closes_at_end fl = true
+  /\ final_marks fl = true.
 
 Section P.
   Variable fl : fflags.
@@ -45,18 +46,19 @@ Section P.
   Lemma after_marker s l : signalled s = true -> (l = [] \/ l = [FFinal]) ->
     out (fclose fl (fold_left (fstep fl) l s)) = out s.
   Proof.
-    destruct G as [G1 [_ [_ [G4 _]]]]. destruct s as [c sg o r cr]. cbn [signalled]. intros -> [->| ->];
+    destruct G as [G1 [_ [_ [G4 [_ G6]]]]]. destruct s as [c sg o r cr]. cbn [signalled]. intros -> [->| ->];
       cbn [fold_left]; unfold fclose, fstep; cbn [running signalled out counter crashed];
-      destruct r; cbn [negb]; rewrite ?G1, ?G4; cbn; reflexivity.
+      destruct r; cbn [negb]; rewrite ?G1, ?G4, ?G6; cbn; reflexivity.
   Qed.
 
   (* THE theorem for the remote kind: whatever prefix of whatever the child can send arrives, the consumer of the results
-     pipe sees a prefix of the child's results, in order, nothing else - and the stream ENDS: an end marker, or EOF *)
+     pipe sees a prefix of the child's results, in order, nothing else - and the stream ENDS with an end marker on the pipe
+     (the pipe is closed as well, but the default results pipe is an in-memory queue on which nobody can observe that) *)
   Theorem forward_prefix_and_ends vs marker final cut :
     let '(o, closed) := forward fl (child_stream vs marker final cut) in
-    (exists j, results o = firstn j vs) /\ (ends o = true \/ closed = true).
+    (exists j, results o = firstn j vs) /\ ends o = true.
   Proof.
-    pose proof G as [G1 [G2 [G3 [G4 G5]]]].
+    pose proof G as [G1 [G2 [G3 [G4 [G5 G6]]]]].
     unfold forward, child_stream.
     set (tail := (match marker with Some ahead => [FEnd (length vs + (if ahead then 1 else 0))] | None => [] end)
                  ++ (if final then [FFinal] else [])).
@@ -69,7 +71,7 @@ Section P.
       unfold fclose. rewrite C, G1. cbn [negb]. rewrite F. cbn [finit signalled out crashed negb andb].
       rewrite A. cbn [finit out app]. split.
       + exists cut. rewrite results_app, results_map. cbn. now rewrite app_nil_r.
-      + left. rewrite ends_app. cbn. now rewrite Bool.orb_true_r.
+      + rewrite ends_app. cbn. now rewrite Bool.orb_true_r.
     - (* all results arrive, then some prefix of [marker; final] *)
       rewrite firstn_app, length_numbered. rewrite (firstn_all2 (numbered 1 vs)) by (rewrite length_numbered; lia).
       rewrite fold_left_app.
@@ -89,19 +91,20 @@ Section P.
         assert (R2 : results (out s2) = vs) by (rewrite O2, results_app; cbn; now rewrite app_nil_r).
         (* what follows is at most the final pair: the marker stays, the results are unchanged *)
         rewrite (after_marker s2 (firstn k (if final then [FFinal] else [])) S2) by (destruct final; destruct k as [|[|k2]]; cbn; auto).
-        split; [apply Pref; exact R2|left; exact E2].
+        split; [apply Pref; exact R2|exact E2].
       + (* no marker from the child: killed, or the server fabricated the final pair *)
         destruct final; cbn [app].
         * destruct (cut - length vs) as [|k]; cbn [firstn fold_left].
           -- unfold fclose. rewrite C, G1, F. cbn. split; [apply Pref; rewrite results_app; cbn; now rewrite app_nil_r|].
-             left. rewrite ends_app. cbn. now rewrite Bool.orb_true_r.
+             rewrite ends_app. cbn. now rewrite Bool.orb_true_r.
           -- set (s2 := fstep fl s1 FFinal).
-             assert (E2 : s2 = mkF (counter s1) (signalled s1) (out s1) false false).
-             { unfold s2, fstep. rewrite C, G4. reflexivity. }
+             assert (E2 : s2 = mkF (counter s1) true (out s1 ++ [OEnd]) false false).
+             { unfold s2, fstep. rewrite C, G4, G6, F. reflexivity. }
              rewrite (fold_stopped _ s2) by (rewrite E2; reflexivity).
-             unfold fclose. rewrite E2. cbn. rewrite G5. split; [apply Pref; exact R1|right; reflexivity].
+             unfold fclose. rewrite E2. cbn.
+             split; [apply Pref; rewrite results_app; cbn; now rewrite app_nil_r|]. rewrite ends_app. cbn. now rewrite Bool.orb_true_r.
         * rewrite firstn_nil. cbn [fold_left]. unfold fclose. rewrite C, G1, F. cbn.
-          split; [apply Pref; rewrite results_app; cbn; now rewrite app_nil_r|]. left. rewrite ends_app. cbn. now rewrite Bool.orb_true_r.
+          split; [apply Pref; rewrite results_app; cbn; now rewrite app_nil_r|]. rewrite ends_app. cbn. now rewrite Bool.orb_true_r.
   Qed.
 End P.
 
@@ -109,9 +112,16 @@ End P.
 Theorem stream_never_ends_if_asserts_come_first :
   exists fl, end_put_first fl = false /\ closes_at_end fl = true /\ exc_marker fl = true /\
     forward fl (child_stream [5%Z] (Some true) true 3) = ([ORes 5%Z], false).
-Proof. exists (Build_fflags true true false true true). repeat split. Qed.
+Proof. exists (Build_fflags true true false true true true). repeat split. Qed.
 
 Theorem stream_never_ends_if_close_is_conditional :
   exists fl, closes_at_end fl = false /\ end_put_first fl = true /\
     forward fl (child_stream [] None true 1) = ([], false).
-Proof. exists (Build_fflags true true true true false). repeat split. Qed.
+Proof. exists (Build_fflags true true true true false false). repeat split. Qed.
+
+(* the third one, found on the code as it was: the final pair without a marker before it (a child ended by force - the pair comes
+   from the server) left the pipe without an end marker; closing an in-memory queue wakes nobody *)
+Theorem stream_has_no_marker_if_the_final_pair_adds_none :
+  exists fl, final_marks fl = false /\ closes_at_end fl = true /\
+    forward fl (child_stream [7%Z] None true 2) = ([ORes 7%Z], true).
+Proof. exists (Build_fflags true true true true true false). repeat split. Qed.
